@@ -11,7 +11,10 @@ RULE = ("texts = interleaved well-formed checksum/size lines for 1-5 files (extr
 FUNCTIONAL = True
 CLASS_TABLE = ["patch-x", "patch-local-x", "patch-x.orig", "patch-x.rej", "patch-x~", "x.patch-1", "emul-a-patch-b", "emul-patch-b", "emul-a-patch",
                "patch-2.7.6.tar.xz", "dir/patch-x", "patch-x/y", "patch-", "patch", "Patch-x", "emul-a-patch-b.tar.gz", "a/b/../patch-z",
-               "patch-x/", "patch-x/.", "patch-x/..", "", "/", ".", "..", "patch-\xe9", "emul-linux-x-patch-1~", "patch-local", "patch-local-", ".orig", "~"]
+               "patch-x/", "patch-x/.", "patch-x/..", "", "/", ".", "..", "patch-\xe9", "emul-linux-x-patch-1~", "patch-local", "patch-local-", ".orig", "~",
+               # '.tar.' must be followed by a further suffix; '.tar', '.target', '.tar_gz', 'tar.' alone do not exempt a patch
+               "patch-mk_build.target.mk", "patch-dist_foo.tar", "emul-linux-patch-x.tar_gz", "patch-a.tar", "patch-a.tar.", "patch-a.tar.gz", "patch-atar.gz", "patch-.tar.", "patch-a.TAR.gz",
+               "emul-linux-patch-2.7.6.tar.xz", "emul-patch-aa", "emul--patch-", "emul-patch", "patch-a.orig.gz", "patch-a.rej~", "patch-a~.gz"]
 
 
 def ws(rng):
